@@ -425,7 +425,7 @@ Definition datagram_steps (st : pstate) (bytes : list Z) : Z :=
   match parse_message bytes with Ok (h, l) => subs_steps (rs_init h) st l | _ => 0 end.
 
 (* -------------------------------------------------------------- the invariant *)
-Definition frag_ok (f : frag) : Prop := fr_count f <= fr_len f + 1 /\ fr_size f <> 0 /\ 0 <= fr_len f.
+Definition frag_ok (f : frag) : Prop := 0 <= fr_count f <= fr_len f + 1 /\ fr_size f <> 0 /\ 0 <= fr_len f.
 (* bytes of buffered fragments (+1 per fragment) *)
 Definition frag_weight (l : list frag) : Z := fold_right (fun f a => fr_len f + 1 + a) 0 l.
 Definition FRAG_CAP : Z := 2147483648.
@@ -448,10 +448,11 @@ Definition frag_bytes (l : list psub) : Z := sumZ (map frag_bytes_sub l).
 (* ----------------------------------------------------------- known classes
    decided on the decoded submessage alone *)
 Definition GAP_LIMIT : Z := 65536.
+Definition ziota (n : Z) : list Z := map Z.of_nat (seq 0 (Z.to_nat n)).
 Definition set_overflows (s : snset) : bool :=
-  existsb (fun i => bit_set (ss_map s) i && (i64_max <=? ss_base s + i)) (iota (ss_bits s)).
+  existsb (fun i => bit_set (ss_map s) i && (i64_max <=? ss_base s + i)) (ziota (ss_bits s)).
 Definition fset_overflows (s : fnset) : bool :=
-  existsb (fun i => bit_set (fs_map s) i && (u32_max <? fs_base s + i)) (iota (fs_bits s)).
+  existsb (fun i => bit_set (fs_map s) i && (u32_max <? fs_base s + i)) (ziota (fs_bits s)).
 
 (* 1: INFO_REPLY => todo!() *)
 Definition k_inforeply (m : psub) : bool := match m with InfoReply _ _ _ => true | _ => false end.
@@ -482,7 +483,7 @@ Definition k_sn_max (m : psub) : bool :=
   end.
 (* 7: DATA_FRAG announcing more fragments than it has payload bytes (reassembly loop) *)
 Definition k_frag_count (m : psub) : bool :=
-  match m with DataFrag _ _ _ _ _ _ _ fc _ _ _ payload => len payload + 1 <? fc | _ => false end.
+  match m with DataFrag _ _ _ _ _ _ _ fc _ _ _ payload => (len payload + 1 <? fc) || (fc <? 0) | _ => false end.
 (* never produced by the decoder (FragmentNumberSet::try_read_from_bytes panics first, C07): a
    FragmentNumberSet whose iterator overflows u32 *)
 Definition k_fset (m : psub) : bool :=
@@ -514,3 +515,40 @@ Definition others (ps : list (list Z)) (st : pstate) : list (list wproxy) * list
 Definition reader_weight (r : sreader) : Z :=
   1 + sumZ (map (fun p => 1 + frag_weight (wp_frags p)) (sr_proxies r)).
 Definition state_frag_weight (st : pstate) : Z := sumZ (map reader_weight (ps_readers st)).
+
+(* ------------------------------------------------------------------ histories *)
+Fixpoint run_datagrams (st : pstate) (ds : list (list Z)) : res pstate :=
+  match ds with
+  | [] => Ok st
+  | d :: t => r <- handle_datagram st d ;; run_datagrams (fst r) t
+  end.
+Definition total_frag_bytes (ds : list (list Z)) : Z := sumZ (map (fun d => frag_bytes (subs_of d)) ds).
+Definition dgram_fine (d : list Z) : Prop := is_panic (parse_message d) = false /\ C06_known_dgram d = false.
+
+(* the bound claimed for the sender-chosen work of one datagram *)
+Definition steps_bound (nsubs nreaders C : Z) : Z := nsubs * nreaders * Z.max GAP_LIMIT ((C + 1) * (C + 1)).
+
+(* ------------------------------------------------- a concrete participant state
+   one user-defined reliable reader matched with the writer 00000002 of participant S
+   (nothing received yet) and one writer with one 44-byte sample matched with S's reader *)
+Definition PFX_S : list Z := [5; 6; 7; 8; 1; 2; 3; 4; 2; 0; 0; 0].
+Definition demo_state : pstate :=
+  mk_ps [mk_sr [0; 0; 0; 7] true true [mk_wp (PFX_S ++ [0; 0; 0; 2]) 1 0 0 false 0 0 0 0 []]]
+        [mk_sw [0; 0; 0; 2] [mk_ch 1 44 true] 1344 [mk_rp (PFX_S ++ [0; 0; 0; 7]) true 1 1 1 0 0]].
+(* generated by /verif/props/c06_wire.py: witness datagrams *)
+Definition w_inforeply : list Z := [82;84;80;83;2;4;1;20;9;9;9;9;9;9;9;9;9;9;9;9;15;1;28;0;1;0;0;0;1;0;0;0;232;28;0;0;0;0;0;0;0;0;0;0;0;0;0;0;127;0;0;1].
+Definition w_gap_range : list Z := [82;84;80;83;2;4;1;20;5;6;7;8;1;2;3;4;2;0;0;0;8;1;28;0;0;0;0;7;0;0;0;2;0;0;0;0;1;0;0;0;0;0;0;64;0;0;0;0;0;0;0;0].
+Definition w_set_iter : list Z := [82;84;80;83;2;4;1;20;5;6;7;8;1;2;3;4;2;0;0;0;6;1;28;0;0;0;0;7;0;0;0;2;255;255;255;127;254;255;255;255;6;0;0;0;0;0;0;4;9;0;0;0].
+Definition w_set_member_max : list Z := [82;84;80;83;2;4;1;20;5;6;7;8;1;2;3;4;2;0;0;0;6;1;28;0;0;0;0;7;0;0;0;2;255;255;255;127;245;255;255;255;11;0;0;0;0;0;32;0;9;0;0;0].
+Definition w_gap_member_max : list Z := [82;84;80;83;2;4;1;20;5;6;7;8;1;2;3;4;2;0;0;0;8;1;32;0;0;0;0;7;0;0;0;2;255;255;255;127;255;255;255;255;255;255;255;127;255;255;255;255;1;0;0;0;0;0;0;128].
+Definition w_data_5 : list Z := [82;84;80;83;2;4;1;20;5;6;7;8;1;2;3;4;2;0;0;0;21;5;36;0;0;0;16;0;0;0;0;7;0;0;0;2;0;0;0;0;5;0;0;0;0;1;0;1;1;0;0;0;3;0;0;0;97;98;99;0].
+Definition w_acknack_min : list Z := [82;84;80;83;2;4;1;20;5;6;7;8;1;2;3;4;2;0;0;0;6;1;24;0;0;0;0;7;0;0;0;2;0;0;0;128;0;0;0;0;0;0;0;0;9;0;0;0].
+Definition w_hb_min : list Z := [82;84;80;83;2;4;1;20;5;6;7;8;1;2;3;4;2;0;0;0;7;1;28;0;0;0;0;7;0;0;0;2;0;0;0;128;0;0;0;0;0;0;0;0;5;0;0;0;7;0;0;0].
+Definition w_hb_min_final : list Z := [82;84;80;83;2;4;1;20;5;6;7;8;1;2;3;4;2;0;0;0;7;3;28;0;0;0;0;7;0;0;0;2;0;0;0;128;0;0;0;0;0;0;0;0;0;0;0;0;7;0;0;0].
+Definition w_data_1 : list Z := [82;84;80;83;2;4;1;20;5;6;7;8;1;2;3;4;2;0;0;0;21;5;36;0;0;0;16;0;0;0;0;7;0;0;0;2;0;0;0;0;1;0;0;0;0;1;0;1;1;0;0;0;3;0;0;0;97;98;99;0].
+Definition w_nackfrag_max : list Z := [82;84;80;83;2;4;1;20;5;6;7;8;1;2;3;4;2;0;0;0;18;1;32;0;0;0;0;7;0;0;0;2;255;255;255;127;255;255;255;255;1;0;0;0;1;0;0;0;0;0;0;128;3;0;0;0].
+Definition w_hb_first_max : list Z := [82;84;80;83;2;4;1;20;5;6;7;8;1;2;3;4;2;0;0;0;7;3;28;0;0;0;0;7;0;0;0;2;255;255;255;127;255;255;255;255;255;255;255;127;255;255;255;255;7;0;0;0].
+Definition w_data_max : list Z := [82;84;80;83;2;4;1;20;5;6;7;8;1;2;3;4;2;0;0;0;21;5;36;0;0;0;16;0;0;0;0;7;0;0;0;2;255;255;255;127;255;255;255;255;0;1;0;1;1;0;0;0;3;0;0;0;97;98;99;0].
+Definition w_data_3 : list Z := [82;84;80;83;2;4;1;20;5;6;7;8;1;2;3;4;2;0;0;0;21;5;36;0;0;0;16;0;0;0;0;7;0;0;0;2;0;0;0;0;3;0;0;0;0;1;0;1;1;0;0;0;3;0;0;0;97;98;99;0].
+Definition w_frag_flood : list Z := [82;84;80;83;2;4;1;20;5;6;7;8;1;2;3;4;2;0;0;0;22;1;33;0;0;0;28;0;0;0;0;7;0;0;0;2;0;0;0;0;1;0;0;0;1;0;0;0;255;255;1;0;206;255;49;0;120;22;1;33;0;0;0;28;0;0;0;0;7;0;0;0;2;0;0;0;0;1;0;0;0;2;0;0;0;255;255;1;0;206;255;49;0;120;22;1;33;0;0;0;28;0;0;0;0;7;0;0;0;2;0;0;0;0;1;0;0;0;3;0;0;0;255;255;1;0;206;255;49;0;120;22;1;33;0;0;0;28;0;0;0;0;7;0;0;0;2;0;0;0;0;1;0;0;0;4;0;0;0;255;255;1;0;206;255;49;0;120;22;1;33;0;0;0;28;0;0;0;0;7;0;0;0;2;0;0;0;0;1;0;0;0;5;0;0;0;255;255;1;0;206;255;49;0;120;22;1;33;0;0;0;28;0;0;0;0;7;0;0;0;2;0;0;0;0;1;0;0;0;6;0;0;0;255;255;1;0;206;255;49;0;120;22;1;33;0;0;0;28;0;0;0;0;7;0;0;0;2;0;0;0;0;1;0;0;0;7;0;0;0;255;255;1;0;206;255;49;0;120;22;1;33;0;0;0;28;0;0;0;0;7;0;0;0;2;0;0;0;0;1;0;0;0;8;0;0;0;255;255;1;0;206;255;49;0;120;22;1;33;0;0;0;28;0;0;0;0;7;0;0;0;2;0;0;0;0;1;0;0;0;9;0;0;0;255;255;1;0;206;255;49;0;120;22;1;33;0;0;0;28;0;0;0;0;7;0;0;0;2;0;0;0;0;1;0;0;0;10;0;0;0;255;255;1;0;206;255;49;0;120;22;1;33;0;0;0;28;0;0;0;0;7;0;0;0;2;0;0;0;0;1;0;0;0;11;0;0;0;255;255;1;0;206;255;49;0;120;22;1;33;0;0;0;28;0;0;0;0;7;0;0;0;2;0;0;0;0;1;0;0;0;12;0;0;0;255;255;1;0;206;255;49;0;120;22;1;33;0;0;0;28;0;0;0;0;7;0;0;0;2;0;0;0;0;1;0;0;0;13;0;0;0;255;255;1;0;206;255;49;0;120;22;1;33;0;0;0;28;0;0;0;0;7;0;0;0;2;0;0;0;0;1;0;0;0;14;0;0;0;255;255;1;0;206;255;49;0;120;22;1;33;0;0;0;28;0;0;0;0;7;0;0;0;2;0;0;0;0;1;0;0;0;15;0;0;0;255;255;1;0;206;255;49;0;120;22;1;33;0;0;0;28;0;0;0;0;7;0;0;0;2;0;0;0;0;1;0;0;0;16;0;0;0;255;255;1;0;206;255;49;0;120;22;1;33;0;0;0;28;0;0;0;0;7;0;0;0;2;0;0;0;0;1;0;0;0;17;0;0;0;255;255;1;0;206;255;49;0;120;22;1;33;0;0;0;28;0;0;0;0;7;0;0;0;2;0;0;0;0;1;0;0;0;18;0;0;0;255;255;1;0;206;255;49;0;120;22;1;33;0;0;0;28;0;0;0;0;7;0;0;0;2;0;0;0;0;1;0;0;0;19;0;0;0;255;255;1;0;206;255;49;0;120;22;1;33;0;0;0;28;0;0;0;0;7;0;0;0;2;0;0;0;0;1;0;0;0;20;0;0;0;255;255;1;0;206;255;49;0;120;22;1;33;0;0;0;28;0;0;0;0;7;0;0;0;2;0;0;0;0;1;0;0;0;21;0;0;0;255;255;1;0;206;255;49;0;120;22;1;33;0;0;0;28;0;0;0;0;7;0;0;0;2;0;0;0;0;1;0;0;0;22;0;0;0;255;255;1;0;206;255;49;0;120;22;1;33;0;0;0;28;0;0;0;0;7;0;0;0;2;0;0;0;0;1;0;0;0;23;0;0;0;255;255;1;0;206;255;49;0;120;22;1;33;0;0;0;28;0;0;0;0;7;0;0;0;2;0;0;0;0;1;0;0;0;24;0;0;0;255;255;1;0;206;255;49;0;120;22;1;33;0;0;0;28;0;0;0;0;7;0;0;0;2;0;0;0;0;1;0;0;0;25;0;0;0;255;255;1;0;206;255;49;0;120;22;1;33;0;0;0;28;0;0;0;0;7;0;0;0;2;0;0;0;0;1;0;0;0;26;0;0;0;255;255;1;0;206;255;49;0;120;22;1;33;0;0;0;28;0;0;0;0;7;0;0;0;2;0;0;0;0;1;0;0;0;27;0;0;0;255;255;1;0;206;255;49;0;120;22;1;33;0;0;0;28;0;0;0;0;7;0;0;0;2;0;0;0;0;1;0;0;0;28;0;0;0;255;255;1;0;206;255;49;0;120;22;1;33;0;0;0;28;0;0;0;0;7;0;0;0;2;0;0;0;0;1;0;0;0;29;0;0;0;255;255;1;0;206;255;49;0;120;22;1;33;0;0;0;28;0;0;0;0;7;0;0;0;2;0;0;0;0;1;0;0;0;30;0;0;0;255;255;1;0;206;255;49;0;120;22;1;33;0;0;0;28;0;0;0;0;7;0;0;0;2;0;0;0;0;1;0;0;0;31;0;0;0;255;255;1;0;206;255;49;0;120;22;1;33;0;0;0;28;0;0;0;0;7;0;0;0;2;0;0;0;0;1;0;0;0;32;0;0;0;255;255;1;0;206;255;49;0;120;22;1;33;0;0;0;28;0;0;0;0;7;0;0;0;2;0;0;0;0;1;0;0;0;33;0;0;0;255;255;1;0;206;255;49;0;120;22;1;33;0;0;0;28;0;0;0;0;7;0;0;0;2;0;0;0;0;1;0;0;0;34;0;0;0;255;255;1;0;206;255;49;0;120;22;1;33;0;0;0;28;0;0;0;0;7;0;0;0;2;0;0;0;0;1;0;0;0;35;0;0;0;255;255;1;0;206;255;49;0;120;22;1;33;0;0;0;28;0;0;0;0;7;0;0;0;2;0;0;0;0;1;0;0;0;36;0;0;0;255;255;1;0;206;255;49;0;120;22;1;33;0;0;0;28;0;0;0;0;7;0;0;0;2;0;0;0;0;1;0;0;0;37;0;0;0;255;255;1;0;206;255;49;0;120;22;1;33;0;0;0;28;0;0;0;0;7;0;0;0;2;0;0;0;0;1;0;0;0;38;0;0;0;255;255;1;0;206;255;49;0;120;22;1;33;0;0;0;28;0;0;0;0;7;0;0;0;2;0;0;0;0;1;0;0;0;39;0;0;0;255;255;1;0;206;255;49;0;120;22;1;33;0;0;0;28;0;0;0;0;7;0;0;0;2;0;0;0;0;1;0;0;0;40;0;0;0;255;255;1;0;206;255;49;0;120;22;1;33;0;0;0;28;0;0;0;0;7;0;0;0;2;0;0;0;0;1;0;0;0;41;0;0;0;255;255;1;0;206;255;49;0;120;22;1;33;0;0;0;28;0;0;0;0;7;0;0;0;2;0;0;0;0;1;0;0;0;42;0;0;0;255;255;1;0;206;255;49;0;120;22;1;33;0;0;0;28;0;0;0;0;7;0;0;0;2;0;0;0;0;1;0;0;0;43;0;0;0;255;255;1;0;206;255;49;0;120;22;1;33;0;0;0;28;0;0;0;0;7;0;0;0;2;0;0;0;0;1;0;0;0;44;0;0;0;255;255;1;0;206;255;49;0;120;22;1;33;0;0;0;28;0;0;0;0;7;0;0;0;2;0;0;0;0;1;0;0;0;45;0;0;0;255;255;1;0;206;255;49;0;120;22;1;33;0;0;0;28;0;0;0;0;7;0;0;0;2;0;0;0;0;1;0;0;0;46;0;0;0;255;255;1;0;206;255;49;0;120;22;1;33;0;0;0;28;0;0;0;0;7;0;0;0;2;0;0;0;0;1;0;0;0;47;0;0;0;255;255;1;0;206;255;49;0;120;22;1;33;0;0;0;28;0;0;0;0;7;0;0;0;2;0;0;0;0;1;0;0;0;48;0;0;0;255;255;1;0;206;255;49;0;120;22;1;33;0;0;0;28;0;0;0;0;7;0;0;0;2;0;0;0;0;1;0;0;0;49;0;0;0;255;255;1;0;206;255;49;0;120;22;1;33;0;0;0;28;0;0;0;0;7;0;0;0;2;0;0;0;0;1;0;0;0;50;0;0;0;255;255;1;0;206;255;49;0;120].
+Definition w_clean : list Z := [82;84;80;83;2;4;1;20;5;6;7;8;1;2;3;4;2;0;0;0;9;1;8;0;1;0;0;0;0;0;0;0;7;1;28;0;0;0;0;7;0;0;0;2;0;0;0;0;1;0;0;0;0;0;0;0;3;0;0;0;5;0;0;0;8;1;32;0;0;0;0;7;0;0;0;2;0;0;0;0;1;0;0;0;0;0;0;0;2;0;0;0;2;0;0;0;0;0;0;64;6;1;28;0;0;0;0;7;0;0;0;2;0;0;0;0;1;0;0;0;2;0;0;0;0;0;0;192;4;0;0;0;22;1;40;0;0;0;28;0;0;0;0;7;0;0;0;2;0;0;0;0;4;0;0;0;1;0;0;0;1;0;8;0;12;0;0;0;0;0;0;0;0;0;0;0;18;1;32;0;0;0;0;7;0;0;0;2;0;0;0;0;1;0;0;0;1;0;0;0;1;0;0;0;0;0;0;128;2;0;0;0;12;1;20;0;0;0;0;0;2;4;1;20;9;9;9;9;9;9;9;9;9;9;9;9;21;5;36;0;0;0;16;0;0;0;0;7;0;0;0;2;0;0;0;0;4;0;0;0;0;1;0;1;1;0;0;0;3;0;0;0;97;98;99;0].
